@@ -72,6 +72,11 @@ class Fn(object):
         if c is not None:
             self.cx.context_ob(self, rule, inst, st, {'as written': c, 'resolved': run_context(self, st, binding, resolved=True)})
 
+    def exits_ob(self, rule):
+        """CONTEXT obligations for the exits of a function that has no inventory: its returns and its raises
+        (exception type) with the conditions under which they run."""
+        context_obligations(self, rule, {}, {}, None)
+
     def callee(self, call):
         """Dotted name of the callee; a local name bound once to a dotted callable
         (`strptime = datetime.datetime.strptime`) resolves to that callable."""
@@ -1000,6 +1005,19 @@ def context_obligations(fn, rule, matched, binding, root=None, conj_of=None):
             if c is not None:
                 table.setdefault(' & '.join(c) or 'always', []).append(r)
     cx.context_returns(fn, rule, tables)
+    # ... and refuses (raises) under the documented conditions only: exception type + run conditions of every
+    # `raise` of the function (messages do not matter)
+    raises = [r for r in fn.walk(root, into_nested=False) if isinstance(r, ast.Raise)]
+    rtab = {}
+    for reading in ('as written', 'resolved'):
+        t_ = rtab.setdefault(reading, {})
+        for r in raises:
+            c = run_context(fn, r, binding, resolved=(reading == 'resolved'))
+            if c is not None:
+                e_ = r.exc.func if isinstance(r.exc, ast.Call) else r.exc
+                ty = (dotted(e_) or 'raise').split('.')[-1] if e_ is not None else 're-raise'
+                t_.setdefault('%s %s' % (ty, ' & '.join(c) or 'always'), []).append(r)
+    cx.context_returns(fn, rule, rtab, what='<raises>', inst='the function refuses (raises) under the documented conditions only')
 
 
 def _roles_not_redefined(fn, rule, matched, binding, root=None, extra_defs_ok=(), fixed=()):
@@ -1272,3 +1290,9 @@ def summarise(stmts, env=None):
         else:
             raise Unsupported(norm_stmt(st))
     return env
+
+
+def exits_of(cx, rule, quals):
+    """Returns and refusals (exception type) of the named functions run under the recorded conditions only."""
+    for q in quals:
+        Fn(cx, q).exits_ob(rule)
